@@ -112,6 +112,15 @@ def process_top(job):
                     if rr['confirms']:
                         w['replay_state'] = stt
                         break
+                if not w['replay'].get('confirms') and 'state' in w and len(e['witnesses']) < 2:
+                    try:
+                        hit = R.search_near(top, C.REG, w['state'], lambda rr_: R.confirms(ob.name, ob.kind, ob.info, rr_))
+                    except Exception:  # noqa: BLE001
+                        hit = None
+                    if hit is not None:
+                        w['replay_state'], rr = hit
+                        rr['confirms'] = True
+                        w['replay'] = rr
                 e['witnesses'].append(w)
     except Exception:
         out['error'] = traceback.format_exc()
@@ -205,7 +214,7 @@ def main():
     if not tops:
         print(f'CHECKER-ERROR property={prop} no contracts registered')
         sys.exit(3)
-    timeout_ms = 20000 if a.tier == 'quick' else 120000
+    timeout_ms = 8000 if a.tier == 'quick' else 90000
     ncpu = os.cpu_count() or 4
     outer = max(1, min(len(tops), 5))
     inner = max(2, (ncpu - 1) // outer)
